@@ -5,15 +5,16 @@ META = dict(
     spec="GatewayHost",
     level_text=("TLC checks the DNSLink label codec (Inline/Uninline transcribed on character sequences) on every name of up "
                 "to 8 characters over {a,b,1,-,.}: round trip for every valid host name, single label, length bound; and checks "
-                "IdentityPreserved, RestPreserved, LabelFits, InlinedForTLS and FollowReaches for every request of the class "
+                "IdentityPreserved, RestPreserved, LabelFits, InlinedForTLS, FollowReaches and FormIndependent for every request of the class "
                 "product (CIDv0/v1 x codecs x bases x multihash sizes, peer IDs, FQDNs with/without records, inlined names, "
-                "garbage; host forms gateway/subdomain/foreign; namespaces; remainder, query, https, X-Forwarded-Host) against "
+                "garbage; host forms gateway/subdomain/foreign, each written plain / with port 8080 / port 80 / upper-case / with "
+                "trailing dot; namespaces; remainder, query, https, X-Forwarded-Host; DNSLink record on the gateway's own name) against "
                 "every relevant public-gateway configuration. All codec rows and all routing cases are replayed into the real "
                 "InlineDNSLink/UninlineDNSLink and NewHostnameHandler (recording next handler, fake DNSLink backend), including "
                 "following each redirect once."),
     level_note=("Trusted: rendering of identifier terms to real CIDs/peer IDs (the spec's length/decodability tables are asserted "
                 "against go-cid/go-libp2p at start-up), net/url parsing of the Location header, httptest. Not covered: legacy "
-                "namespaces p2p/ipld, DNSLink record on the gateway's own host name, URL fragments (never sent to servers), "
+                "namespaces p2p/ipld, IP-address and IPv6 hosts, URL fragments (never sent to servers), "
                 "host names that are not LDH (labels starting with '-': the codec is not injective there)."),
     technique="TLA+ class-product enumeration with gated as-built routing; TLC-generated cases replayed through the real handler",
 )
@@ -45,11 +46,14 @@ def write_cfg(ctx, src, dst, **kw):
 def run(ctx):
     ctx.assumptions += ["identifier terms are rendered to real CIDs/peer IDs by the harness (tables asserted at start-up)",
                         "a client follows a 301 by requesting the Location's host/path/query over the same transport",
-                        "DNS names are LDH host names (RFC 1123)"]
+                        "DNS names are LDH host names (RFC 1123)",
+                        "the DNSLink backend answers for the DNS NAME a text denotes (case-insensitive, trailing dot ignored), like DNS"]
     ctx.cov["rule"] = ("codec: every character sequence up to %d chars (model) / %d chars + names padded to the 63 limit (replayed). "
                        "routing: block 'ids' = every identifier form x namespace x host form x https x X-Forwarded-Host x "
                        "{UseSubdomains, InlineDNSLink, Paths, NoDNSLink}; block 'rest' = representative identifiers x remainders x "
-                       "queries x port x wildcard gateway host. non-trivial = case whose expected outcome is a redirect or a "
+                       "queries x port x wildcard gateway host; block 'forms' = representative identifiers x every handler branch (known "
+                       "gateway with/without own DNSLink record, path inside/outside Paths, NoDNSLink, subdomain, wildcard, foreign "
+                       "DNSLink site) x 6 textual host forms (port 8080, port 80, upper case, trailing dot, dot+port) x X-Forwarded-Host. non-trivial = case whose expected outcome is a redirect or a "
                        "rewritten path") % ((6, 4) if ctx.quick else (8, 6))
     devs = ctx.open_devs()
     devset = "{" + ", ".join('"%s"' % d for d in devs) + "}"
@@ -61,7 +65,7 @@ def run(ctx):
         return
     rows = parse_cases(res["out"])
     # ---- routing: M + G in one run (both blocks)
-    cfg = write_cfg(ctx, "GenGatewayHost.cfg.in", "gen_GenGatewayHost.cfg", DEVS=devset, BLOCKS='{"ids", "rest"}', LITE="FALSE", RICH="FALSE" if ctx.quick else "TRUE",
+    cfg = write_cfg(ctx, "GenGatewayHost.cfg.in", "gen_GenGatewayHost.cfg", DEVS=devset, BLOCKS='{"ids", "rest", "forms"}', LITE="FALSE", RICH="FALSE" if ctx.quick else "TRUE",
                     INVS="Checks")
     res = ctx.tlc_mc(SPEC, "GenGatewayHost.tla", cfg, timeout=3000, deadlock=False, workers=workers)
     if not res["ok"]:
